@@ -29,6 +29,7 @@ EXPLANATION = (
     "index at bits 2-5; immediate = 1 unsigned byte; integer/address = 4-byte signed little-endian; metadata = 2 version "
     "bytes + uint16 app id; every command struct packed and exactly 7 bytes)."
     ' C02.O: the opcode tables consulted at run time are owned per flavour instance.'
+    " C02.M also: the header handed out by Subroutine.cstructs is built in that call from the subroutine's own version and app id (or is a kept header dropped by every writer of those fields)."
 )
 LEVEL_TEXT = (
     "Static analysis, full: the wire layout of all instruction classes of all flavours is derived from the source and "
@@ -239,6 +240,11 @@ def run(ctx):
             ctx.check("C02.M", "Subroutine.cstructs:version-then-app-id", bool(ok), f"Metadata fields in order {names} are filled with {first}; bytes 0-1 must carry the version and 2-3 the app id", sub.loc(cs))
     if first is None:
         ctx.error("C02.M", "Subroutine.cstructs does not build encoding.Metadata")
+    # the header is built for each serialisation from the subroutine's current version and app id (shared with C01.F)
+    from . import c01
+    md_, _ = c01.cstructs_parts(ctx, sub, cs, "C02.M")
+    if md_ is not None:
+        c01.check_header(ctx, "C02.M", sub, cs, md_)
     # C02.R register byte
     reg = enc.classes.get("Register")
     if reg is None:
